@@ -943,6 +943,9 @@ pub fn run_c15(a: &Args) {
         let h = if proxy { [0usize, 4][(k / 2) % 2] } else { 0 };
         reqs.push(format!("c15.run proxy={} allow=11 limit={} via=listener burst=1 hdrs={} login=0", u8::from(proxy), 1 + k % 3, vec![format!("{}/{h}", 1 + k % 2); 96].join(";")));
     }
+    // … and with a budget wider than the burst: nobody is turned away because somebody else is at the limiter
+    reqs.push(format!("c15.run proxy=0 allow=11 limit=500 via=listener burst=1 hdrs={} login=0", vec!["1/0".to_string(); 96].join(";")));
+    reqs.push(format!("c15.run proxy=1 allow=11 limit=500 via=listener burst=1 hdrs={} login=0", vec!["2/4".to_string(); 96].join(";")));
     let cases = retry_failed(par_cases(a.seed, reqs.len(), |i, _| guarded(&reqs[i], c15_case)), &reqs, |r| guarded(r, c15_case));
     write_cases(&a.out, &cases).expect("write cases");
     println!("c15: {} cases", cases.len());
@@ -1075,6 +1078,7 @@ async fn stall(port: u16, proxy: bool, stage: &str) -> Option<Cli> {
 }
 
 fn c16_case(req: &str) -> Case {
+    if req.contains("stalled=grpc-status") { return crate::c19::status_overlap_case(); }
     if req.contains("stalled=fd-exhaustion") {
         // in a child process with 160 descriptors: a connection arrives that the server cannot accept for want of a descriptor
         let long = req.contains("episode=long");
@@ -1093,7 +1097,11 @@ fn c16_case(req: &str) -> Case {
     rt().block_on(async {
         let srv = Srv::start(&SrvOpts { proxy: if proxy { Some((true, true)) } else { None }, limiter: if limiter { Some(2) } else { None }, timeout: Duration::from_millis(timeout_ms), gated: true, ..Default::default() });
         let mut held = vec![];
-        for s in &stages { held.push(stall(srv.port, proxy, s).await); }
+        for s in &stages {
+            // "crowd": six hundred connections that are opened and then say nothing (from the hostile peer's own address)
+            if *s == "crowd" { for _ in 0..600 { held.push(Cli::connect(srv.port, Some(Ipv4Addr::new(127, 0, 0, 2))).await.ok()); } tokio::time::sleep(Duration::from_millis(1000)).await; }
+            else { held.push(stall(srv.port, proxy, s).await); }
+        }
         tokio::time::sleep(Duration::from_millis(50)).await;
         // with every other connection stalled the server has nothing to do: CPU it burns now is taken from everyone else
         let cpu0 = srv.cpu_ms();
@@ -1131,6 +1139,9 @@ pub fn run_c16(a: &Args) {
     }
     reqs.push("c16.run proxy=0 limiter=0 gap=0 stalled=fd-exhaustion".into());
     reqs.push("c16.run proxy=0 limiter=0 gap=0 stalled=fd-exhaustion episode=long".into());
+    reqs.push("c16.run proxy=0 limiter=0 gap=0 stalled=grpc-status".into());
+    reqs.push("c16.run proxy=0 limiter=0 gap=0 stalled=crowd".into());
+    reqs.push("c16.run proxy=1 limiter=0 gap=0 stalled=crowd,pre".into());
     let cases = retry_failed(par_cases(a.seed, reqs.len(), |i, _| guarded(&reqs[i], c16_case)), &reqs, |r| guarded(r, c16_case));
     write_cases(&a.out, &cases).expect("write cases");
     println!("c16: {} cases", cases.len());
